@@ -241,16 +241,16 @@ class HttpWebServerPlugin(HttpProtocolHandlerPlugin):
             'client_port': None if not self.client.addr else self.client.addr[1],
             'connection_time_ms': '%.2f' % ((time.time() - self.start_time) * 1000),
             # Request
-            'request_method': text_(self.request.method),
-            'request_path': text_(self.request.path),
+            'request_method': text_(self.request.method, errors='replace'),
+            'request_path': text_(self.request.path, errors='replace'),
             'request_bytes': self.request.total_size + self._post_request_data_size,
             'request_ua': (
-                text_(self.request.header(b'user-agent'))
+                text_(self.request.header(b'user-agent'), errors='replace')
                 if self.request.has_header(b'user-agent')
                 else None
             ),
             'request_version': (
-                None if not self.request.version else text_(self.request.version)
+                None if not self.request.version else text_(self.request.version, errors='replace')
             ),
             # Response
             #
